@@ -1,8 +1,10 @@
 #!/bin/bash
-# tools/recheck_seeds.sh — re-runs the quick check of the targeted property against every seeded change (scratch copies
-# under /tmp/ts, /repo untouched) and writes seeded/RECHECK.tsv: seed, property checked, exit code (1 = reported).
+# tools/recheck_seeds.sh [VERIF_SEED] — re-runs the quick check of the targeted property against every seeded change (scratch
+# copies under /tmp/ts, /repo untouched) and writes seeded/RECHECK[-seedN].tsv: seed, property checked, exit code (1 = reported).
 cd "$(dirname "$0")/.."
-OUT=seeded/RECHECK.tsv; : > $OUT
+SEED="${1:-1}"; export VERIF_SEED=$SEED
+OUT=seeded/RECHECK.tsv; [ "$SEED" != "1" ] && OUT=seeded/RECHECK-seed$SEED.tsv
+: > $OUT
 for d in seeded/C*-v*; do
   s=$(basename $d); id=${s%%-*}
   case "$s" in C06-v4) id=C03;; esac
